@@ -348,4 +348,7 @@ SUBS = [
         cost={"float": 600, "datetime": 150}),
     Sub("gb", check, strategy=lambda tier, v: case_strategy(v), variants=tuple(VARIANTS), examples=(4500, 90000),
         replicas=(3, 8), cost={v: 300 for v in VARIANTS}),
+    # dedicated worker with bounds-checked kernels (sanitizer analogue: ring-buffer / counter indexes)
+    Sub("gb_boundscheck", check, strategy=lambda tier, v: case_strategy(v), variants=tuple(VARIANTS)[:2], examples=(500, 8000),
+        replicas=(1, 1), cost={v: 150 for v in VARIANTS}, env={"NUMBA_BOUNDSCHECK": "1", "NUMBA_CACHE_DIR_SUFFIX": "bc"}),
 ]
